@@ -3,6 +3,9 @@
 //   id, "dec", codec, target, opts, hex-input, obs      obs = ok|d<depth>  /  err:<class>  /  panic:<site>
 //   id, "alloc", codec, opts, hex-input, obs            obs = alloc:<bytes>|<class>
 //   id, "path", hex-input, obs                          obs = <n>:<hexseg>,<hexseg>,...
+// Side file <out>.j (dag-json tie, read by the json cluster's driver from extra() in vlib/props/c10.py): one
+//   id, "j", codec, opts, hex-input, ptab, obs          for every dagjson/json "dec" record into the basic target;
+//   ptab = cid.Decode of every string token of the input (as in c04), obs = the dec record's observation
 // codec in dagcbor|cbor|dagjson|json|raw ; target in basic|bind:<Type>|gen:<Type>
 // opts for the cbor family as in c03 (s l e b d) plus p<prealloc>; for json: l<0|1>y<0|1>e<0|1>d<depth>
 package main
@@ -462,8 +465,17 @@ func main() {
 	}
 	out := lib.OpenOut(fl.Out)
 	defer out.Close()
+	var jout *lib.Out
+	if fl.Out != "" {
+		jout = lib.OpenOut(fl.Out + ".j")
+		defer jout.Close()
+	}
 	emitDec := func(id, codec, target, opts string, in []byte) {
-		out.Case(id, "dec", codec, target, opts, lib.Hex(string(in)), decode(codec, target, opts, in))
+		obs := decode(codec, target, opts, in)
+		out.Case(id, "dec", codec, target, opts, lib.Hex(string(in)), obs)
+		if jout != nil && target == "basic" && (codec == "dagjson" || codec == "json") {
+			jout.Case(id, "j", codec, opts, lib.Hex(string(in)), lib.JsonParseTable(in), obs)
+		}
 	}
 	emitAlloc := func(id, codec, opts string, in []byte) {
 		out.Case(id, "alloc", codec, opts, lib.Hex(string(in)), allocChild(codec, opts, in))
@@ -475,6 +487,8 @@ func main() {
 			switch f[1] {
 			case "dec":
 				emitDec(f[0], f[2], f[3], f[4], []byte(lib.UnHex(f[5])))
+			case "j": // a dag-json tie record replays as the dec record it was derived from
+				emitDec(f[0], f[2], "basic", f[3], []byte(lib.UnHex(f[4])))
 			case "alloc":
 				emitAlloc(f[0], f[2], f[3], []byte(lib.UnHex(f[4])))
 			case "path":
